@@ -108,7 +108,13 @@ pub fn ty(t: &TypeRef) -> Node {
 
 fn tag_prop(n: &mut Node, tag: Option<&Integer<u32>>) {
     match tag {
-        Some(t) => n.prop("tag", &t.value.to_string()),
+        Some(t) => {
+            n.prop("tag", &t.value.to_string());
+            let mut lit = Node::new("tagvalue");
+            lit.prop("value", &t.value.to_string());
+            lit.span = Some(sp(&t.span));
+            n.children.push(lit);
+        }
         None => n.prop("tag", "none"),
     }
 }
@@ -206,6 +212,12 @@ pub fn definition(d: &Definition) -> Node {
                 with_common(&mut x, en, &en.identifier);
                 for f in en.fields() {
                     x.children.push(field(f));
+                }
+                if let EnumeratorValue::Explicit(v) = &en.value {
+                    let mut lit = Node::new("valueliteral");
+                    lit.prop("value", &v.value.to_string());
+                    lit.span = Some(sp(&v.span));
+                    x.children.push(lit);
                 }
                 n.children.push(x);
             }
